@@ -238,6 +238,10 @@ func (h *Handler) dialPeers(upstream *Upstream, repl *caddy.Replacer, down *laye
 				h.FromConn(downConn, false)
 				_, err = h.WriteTo(up)
 			}
+			if err != nil {
+				// the header could not be written: do not leak the connection just dialed
+				_ = up.Close()
+			}
 		}
 
 		if err != nil {
